@@ -321,6 +321,35 @@ PROBES_C05 += [
 groups.register_probes("C05", PROBES_C05)
 
 
+COMPLETION_CASES = {     # expected values: ECMA-262 14 (UpdateEmpty), cross-checked with node 20 at development time
+    '8; if (0) 1': None, '8; var y': 8, '8; ;': 8, '8; function f() {}': 8, 'switch (1) { case 1: 5 }': 5, 'for (var i = 0; i < 2; i++) { i + 10 }': 11, 'var j = 0; while (j < 2) { j++; j * 2 }': 4,
+    'do { 9 } while (false)': 9, 'try { 1 } catch (e) { }': 1, 'try { throw 1 } catch (e) { e + 1 }': 2, 'try { 1 } finally { 2 }': 1, 'lbl: 7': 7, '1; while (false) {}': None, '1; 2': 2, '{ 4 }': 4, 'if (1) { 3 }': 3,
+    'if (0) 1; else 2': 2, '5; {}': 5, '6; try {} finally {}': None, '7; switch (1) {}': None, 'eval("1; 2")': 2, 'var r = eval("3; var q"); r': 3, 'function f(){ 5 } f()': None, 'function f(){ 5 } f(); 6': 6,
+    '1; [1].forEach(function(){ 9 })': None, 'for (var k in {a: 1}) { k }': 'a', 'for (var v of [5]) { v }': 5, 'var x = 1; x; var y': 1, 'do { 9; break } while (true)': 9, 'try { 1; throw 0 } catch (e) { }': None,
+    '1; try { 2 } finally { 3 }': 2, 'a: { 1; break a; 2 }': 1, 'if (1) 2; else 3': 2, '1; if (1) { }': None, '': None, ';': None, 'var z = 4': None, 'w = 1': 1, '1; for (;;) { break }': None,
+    'var n = 0; for (;;) { n++; if (n > 2) break; n * 10 }': None, 'var n = 0; do { n++; n * 10 } while (n < 2)': 20, '1; switch (2) { case 1: 5 }': None, 'switch (1) { case 1: 5; break; case 2: 6 }': 5, 'switch (3) { case 1: 5; default: 7 }': 7,
+    'try { try { 1 } finally { 9 } } catch (e) { 2 }': 1, 'new Function("1; 2")()': None, '(function () { return eval("4; if (1) { 5 }") })()': 5, '3; eval("")': None, '3; eval("var q1")': None,
+}
+
+
+@groups.group(id="C05.bounded.completion-values", prop="C05", kind="B", functions=["microjs.compiler:Compiler.compile", "microjs.compiler:Compiler._reset_completion", "microjs.vm:VM._execute_opcode[SET_COMPLETION]"])
+def c05_completion_values(tier="quick", seed=0):
+    """the completion value of the script for every statement form as the last (or only value-producing) statement: the value
+    of the last expression statement that ran; if / loops / switch / try start from undefined, declarations and empty
+    statements keep what there is, the value of a finally block does not count"""
+    from microjs import Context
+    bad = None
+    for src, want in COMPLETION_CASES.items():
+        try:
+            got = Context(time_limit=5).eval(src)
+        except BaseException as e:  # noqa
+            got = f"!{type(e).__name__}: {e}"[:80]
+        if got != want and bad is None:
+            bad = (src, f"{got!r}, ECMAScript {want!r}")
+    return [ob("C05.bounded.completion-values", bad is None, "B", f"{len(COMPLETION_CASES)} scripts" if bad is None else f"{bad[0]!r}: {bad[1]}", witness=(bad[0] if bad else None),
+               confirmed=True if bad else None, domain=len(COMPLETION_CASES))]
+
+
 # =======================================================================================================================
 # K1: the iterators behind for-of and for-in, for every array / key list / position
 # =======================================================================================================================
